@@ -27,6 +27,8 @@ var csteps = []cstep{
 	{"sliceadd", "xs[0] = xs[0] + 5"},
 	{"structvar", "sv.a = sv.a + v + 1"},
 	{"ptrslice_method", "as[0].add(v + 1)"},
+	{"addr_structvar_call", "caddp(&sv, v+1)"},
+	{"addr_structvar_local", "{\n\tq := &sv\n\tq.a = q.a + 2\n}"},
 }
 
 type lockStyle struct {
@@ -77,6 +79,15 @@ func joinStyles(ls lockStyle) []joinStyle {
 			func(k int) string {
 				return fmt.Sprintf("%s\n\tfor !lt.ready {\n\t\tlt.cond.Wait()\n\t}\n\t%s", ls.lock, ls.unlock)
 			}},
+		// "sleep until poked": one Wait under an if whose guard the wake-up does not change (a lost wake-up is possible in Go
+		// too; what matters is that the run in which the poke arrives after the Wait began comes back)
+		{"if_wait_once", func(k int) string {
+			return "cond := sync.NewCond(" + ls.expr + ")\n\tvar sleepy bool = true\n\tvar done uint64 = 0"
+		},
+			ls.lock + "\n\t\tdone = done + 1\n\t\tcond.Broadcast()\n\t\t" + ls.unlock,
+			func(k int) string {
+				return fmt.Sprintf("%s\n\tif sleepy && done < %d {\n\t\tcond.Wait()\n\t}\n\t%s", ls.lock, k, ls.unlock)
+			}},
 		{"cond_timeout", func(k int) string { return "cond := sync.NewCond(" + ls.expr + ")\n\tvar done uint64 = 0" },
 			ls.lock + "\n\t\tdone = done + 1\n\t\t" + ls.unlock,
 			func(k int) string {
@@ -108,6 +119,10 @@ type CLatch struct {
 func (s *CSt) add(d uint64) {
 	s.a = s.a + d
 }
+
+func caddp(s *CSt, d uint64) {
+	s.a = s.a + d
+}
 `
 
 func locked(ls lockStyle, st cstep, tabs int) string {
@@ -124,11 +139,11 @@ func ConcProgs(tier string) []ConcProg {
 	seen := map[string]bool{}
 	steps := csteps
 	if tier == "quick" {
-		steps = append(append([]cstep{}, csteps[:4]...), csteps[6], csteps[7], csteps[8])
+		steps = append(append([]cstep{}, csteps[:4]...), csteps[6], csteps[7], csteps[8], csteps[9], csteps[10])
 	}
 	add := func(ls lockStyle, js joinStyle, t1, t2 []cstep, main []cstep, shape string) {
 		k := 1
-		if t2 != nil || shape == "loop" || shape == "spawner" {
+		if t2 != nil || shape == "loop" || shape == "spawner" || shape == "rangeloop" {
 			k = 2
 		}
 		ids := func(ss []cstep) string {
@@ -171,6 +186,8 @@ func ConcProgs(tier string) []ConcProg {
 		case "spawner":
 			// a closure that spawns the goroutine; its parameter and the shared variables are read two levels down
 			fmt.Fprintf(&sb, "\tvar limit uint64 = 5\n\tstart := func(d uint64) {\n\t\tgo func() {\n\t\t\t%s\n\t\t\tif d < limit {\n\t\t\t\tv = v + d\n\t\t\t}\n\t\t\t%s\n\t\t\t%s\n\t\t}()\n\t}\n\tstart(1)\n\tstart(2)\n", ls.lock, ls.unlock, strings.ReplaceAll(js.done, "\n\t\t", "\n\t\t\t"))
+		case "rangeloop":
+			fmt.Fprintf(&sb, "\tws := make([]uint64, 2)\n\tws[0] = 1\n\tws[1] = 2\n\tfor _, w := range ws {\n\t\tgo func() {\n\t\t\t%s\n\t\t\tv = v*4 + w\n\t\t\t%s\n\t\t\t%s\n\t\t}()\n\t}\n", ls.lock, ls.unlock, strings.ReplaceAll(js.done, "\n\t\t", "\n\t\t\t"))
 		case "underif":
 			sb.WriteString("\tif v == 0 {\n")
 			sb.WriteString("\t\tgo func() {\n")
@@ -212,6 +229,7 @@ func ConcProgs(tier string) []ConcProg {
 			add(ls, js, nil, nil, nil, "loop")
 			add(ls, js, []cstep{steps[0], steps[1]}, nil, nil, "nested")
 			add(ls, js, nil, nil, nil, "spawner")
+			add(ls, js, nil, nil, nil, "rangeloop")
 			add(ls, js, []cstep{steps[0]}, nil, nil, "underif")
 			// two goroutines for every lock/join style
 			add(ls, js, []cstep{steps[0]}, []cstep{steps[2]}, nil, "plain")
